@@ -3,7 +3,7 @@
   invisible wrapper hands out exactly its element blocks, detached, in order.
 -/
 import AHP.Model.Fragment
-import AHP.Lemmas.DomFrame
+import AHP.Lemmas.DomHtml
 namespace AHP.Dom
 
 def detach (b : DN) : DN := reown none (setParent none b)
